@@ -4,6 +4,10 @@ import json, os, sys
 HERE = os.path.dirname(os.path.abspath(__file__))
 
 CHECKS = {
+ 'C08': dict(technique='runtime monitor: real-code differential -- k single-alternative graders built from the same spec define what the input earns against each alternative; the full grader is called in every listing order and must return the maximum, a longest message among the best, wrong_msg exactly when applicable',
+             text='Exploration by runtime monitoring: for String, Numerical, Formula (scripted samples), Matrix and SingleList graders with 1-6 alternatives (expect tuples, credits incl. 0, messages of different lengths, short/long/no wrong_msg) the full grader is built in every listing order (k<=4; 24 orders beyond) and called on inputs matching none/one/several alternatives; grade, message and order-independence are compared with the single-alternative graders; the same law is checked entrywise inside ordered and unordered ListGraders.',
+             note='Trusted: the single-alternative graders (real code) as reference; R5 for ties.',
+             ref='DESIGN.md section 4, C08'),
  'C05': dict(technique='runtime monitor: id-carrying table-driven ItemGrader (every returned entry names the answer/input pair that produced it) + exhaustive-search assignment oracle over the credit matrix; tap on Munkres.compute validating every solve made during real grading against the exact subset-DP optimum',
              text='Exploration by runtime monitoring: ListGraders over arbitrary credit matrices (n <= 5 quick / 6 thorough, answers with alternatives, 1-3 alternative answer lists, ordered with single subgrader or subgrader lists, unordered, partial_credit on/off) are called on permutations of the inputs; every result is checked for entry position (entry i grades input i), ordered pairing, one-to-one-ness, a single answer list, optimal total over all n! assignments and over lists, the partial_credit=False rule and ok values; grouped nested ListGraders with interleaved groupings are checked for position, group-consistent assignment and optimality.',
              note='Trusted: brute-force / subset-DP assignment oracle; unique answer and input tokens so that messages identify pairs.',
